@@ -103,6 +103,7 @@ type bprover struct {
 	// succFacts: what holds when the error a helper call handed back is nil (keyed by that error value):
 	// the helper's own guards on the way to its successful returns, written over the call's arguments
 	succFacts map[ssa.Value][]fact
+	succBool  map[ssa.Value]bool // the key is a boolean "ok" result: the facts hold when it is true
 }
 
 func newBProver(w *World, fn *ssa.Function) *bprover {
@@ -524,12 +525,45 @@ func stableMember(al *ssa.Alloc, k int) ssa.Value {
 	return whole
 }
 
+func nonZeroAtoms(l lin) []string {
+	var out []string
+	for a, k := range l.t {
+		if k != 0 {
+			out = append(out, a)
+		}
+	}
+	return out
+}
+
+// signedAtom: the atom is the name of an SSA value of a signed integer type
+func (p *bprover) signedAtom(a string) bool {
+	for v, id := range p.ids {
+		if id == a {
+			return isIntType(v.Type()) && !isUnsigned(v.Type())
+		}
+	}
+	return false
+}
+
 // boundedByLength: facts ⊢ e <= len(...) + c for some length atom set (any upper bound made of lengths/consts).
 func (p *bprover) boundedByLength(e lin, facts []fact) bool {
 	// search facts of the form  U - e >= 0  where U consists only of len/half atoms and constants
 	for _, f := range facts {
 		u := f.e.add(e) // f.e = U - e  ⇒ U = f.e + e
 		onlyLen := true
+		// the bound is one value of a signed integer type (minus a constant): whatever it is, it fits
+		// (`uint64(c) <= uint64(limit)` with limit an int that was tested >= 0)
+		if nz := nonZeroAtoms(u); len(nz) == 1 && u.t[nz[0]] == 1 && u.c <= 0 && p.signedAtom(nz[0]) && len(e.t) > 0 {
+			ok := true
+			for a, k := range e.t {
+				if f.e.t[a] != -k {
+					ok = false
+				}
+			}
+			if ok {
+				return true
+			}
+		}
 		for a, k := range u.t {
 			if (strings.HasPrefix(a, "len(") || strings.HasPrefix(a, "half(")) && k >= 0 {
 				continue
@@ -567,6 +601,9 @@ func (p *bprover) boundedByLength(e lin, facts []fact) bool {
 // ---- facts -----------------------------------------------------------------------
 
 func (p *bprover) condFacts(cond ssa.Value, truth bool, at *ssa.BasicBlock) []fact {
+	if truth && p.succBool[cond] {
+		return p.succFacts[cond]
+	}
 	b, ok := cond.(*ssa.BinOp)
 	if ok && len(p.succFacts) > 0 && (b.Op == token.EQL || b.Op == token.NEQ) {
 		x, y := b.X, b.Y
